@@ -146,11 +146,14 @@ func (ps *PathSet) walk(t reflect.Type, v reflect.Value, p []string, kind string
 			ps.add(ext(p, ""), sub("unparsable-key"))
 			if len(keys) > 0 && (kt.Kind() >= reflect.Int && kt.Kind() <= reflect.Uint64) {
 				k := keys[0]
-				for k.Kind() == reflect.Ptr {
+				for k.Kind() == reflect.Ptr && !k.IsNil() {
 					k = k.Elem()
 				}
 				var hexs string
-				if k.Kind() >= reflect.Int && k.Kind() <= reflect.Int64 {
+				if k.Kind() == reflect.Ptr {
+					// a nil pointer key: no text denotes it
+					hexs = "0x0"
+				} else if k.Kind() >= reflect.Int && k.Kind() <= reflect.Int64 {
 					if k.Int() >= 0 {
 						hexs = "0x" + strconv.FormatInt(k.Int(), 16)
 					} else {
